@@ -396,6 +396,40 @@ theorem C20_segment_unchecked_counterexample :
     loadKind C Checks.repaired [1, 2, 3, 5] t .vec = .ok .fallback := by
   decide
 
+/-- **C20_segment_swallowed** — for the kinds whose load failure `init_tantivy` /
+    `load_vec_index_from_manifest` swallow (lexical, vector), loading NEVER reports an error, whatever
+    the comparison flags are: since `fix: 444fffb` `materialize_tantivy_segments` compares the catalog
+    checksum, but the mismatch only makes `init_tantivy` fall back to an empty engine
+    (`has_tantivy_segments` ⇒ no rebuild).  Damage of such a segment therefore cannot be *detected* by
+    an open; it is either served (`.ok`) or silently replaced by the empty index (`.fallback`). -/
+theorem C20_segment_swallowed (C : Codecs) (k : Checks) (kind : SegKind) (parts : List (MSeg × Bytes))
+    (hsw : kind.swallowed = true) : ∀ e, loadParts C k kind parts ≠ .error e := by
+  intro e
+  unfold loadParts
+  split
+  · simp [hsw]
+  · split <;> simp [hsw]
+
+/-- **C20_segment_compared_swallowed_fallback** — compared *and* swallowed (the lexical index of the
+    current tree): a part that does not hash to its catalog checksum yields exactly the silent
+    fallback. -/
+theorem C20_segment_compared_swallowed_fallback (C : Codecs) (k : Checks) (kind : SegKind)
+    (parts : List (MSeg × Bytes)) (hcmp : k.compared kind = true) (hsw : kind.swallowed = true)
+    (p : MSeg × Bytes) (hp : p ∈ parts) (hbad : C.H p.2 ≠ p.1.checksum) :
+    loadParts C k kind parts = .ok .fallback := by
+  have hany : parts.any (fun p => decide (C.H p.2 ≠ p.1.checksum)) = true :=
+    List.any_eq_true.mpr ⟨p, hp, by simpa using hbad⟩
+  unfold loadParts
+  simp only [hcmp, hany, and_self, ↓reduceIte, hsw]
+
+/-- non-vacuity: with the flags generated from the source, a damaged Tantivy part falls back -/
+example :
+    let t : MToc := { frames := [], segs := [{ kind := .lex, off := 0, len := 2, checksum := sumH [1, 2] }],
+                      checksumOk := true, rest := [] }
+    loadKind toyCodecs { Checks.repaired with lex := true } [1, 2] t .lex = .ok (.ok [1, 2]) ∧
+    loadKind toyCodecs { Checks.repaired with lex := true } [1, 9] t .lex = .ok .fallback := by
+  decide
+
 /-! ### verify(deep) -/
 
 /-- **C20_verify** (repaired `verify`: payload pass + segment checksum pass).  `Passed` implies: the
